@@ -78,7 +78,7 @@ fn cmd_run(args: &[String]) {
     rt.block_on(async {
         for (k, sc) in scripts.iter().enumerate() {
             cur.store(k, Ordering::SeqCst);
-            let tr = engine::run_scenario(sc).await;
+            let tr = if sc["sock"] == "PROXY" { engine::run_proxy_scenario(sc).await } else { engine::run_scenario(sc).await };
             for mut e in tr {
                 n += 1;
                 e["i"] = serde_json::json!(n);
